@@ -402,7 +402,32 @@ class Check:
                 bad = [a for a in axs if a not in ALLOWED_AXIOMS and a.split(".")[-1] not in ALLOWED_AXIOMS]
                 self.oblige("theorem:" + t, not bad,
                             "depends on axioms outside the stated base: %s" % bad if bad else "")
+        if self.tier == "thorough" and not os.environ.get("RIG_NO_COQCHK"):
+            self.coqchk()
         return True
+
+    def coqchk(self, timeout=3000):
+        """Thorough tier: re-check the compiled property file and everything it depends on with the independent
+        checker and record its context summary (axioms, type-in-type, unsafe fixpoints, assumed positivity)."""
+        mod = "Rig.Props.%s" % self.pid
+        rc, out = sh("timeout %d coqchk -silent -o -R . Rig %s 2>&1" % (timeout, mod), cwd=COQ)
+        summ = out[out.find("CONTEXT SUMMARY"):] if "CONTEXT SUMMARY" in out else out[-1500:]
+
+        def section(title):
+            m = re.search(re.escape(title) + r":(.*?)(?:\n\s*\n\* |\Z)", summ, re.S)
+            body = (m.group(1) if m else "?").strip()
+            return [] if body == "<none>" else [l.strip() for l in body.splitlines() if l.strip()]
+        axs = section("* Axioms")
+        bad_ax = [a for a in axs if a.split(":")[0].strip() not in ALLOWED_AXIOMS
+                  and a.split(":")[0].strip().split(".")[-1] not in ALLOWED_AXIOMS]
+        unsafe = section("* Constants/Inductives relying on type-in-type") \
+            + section("* Constants/Inductives relying on unsafe (co)fixpoints") \
+            + section("* Inductives whose positivity is assumed")
+        ok = rc == 0 and "CONTEXT SUMMARY" in out and not bad_ax and not unsafe
+        self.coverage["coqchk"] = dict(axioms=axs, unsafe=unsafe, rc=rc)
+        self.oblige("coqchk:%s re-checked by the independent checker (axioms: %s)" % (mod, ", ".join(a.split(":")[0] for a in axs) or "none"),
+                    ok, summ[-1200:])
+        return ok
 
     def hygiene(self):
         bad = []
